@@ -481,3 +481,50 @@ M("precompute-delimiter-conditional-flipped", ["~C10"], GEN,
   "    delimiter = \",\" if output.split(\".\")[-1] == \"csv\" else \" \"", "    delimiter = \" \" if output.split(\".\")[-1] != \"csv\" else \",\"")
 M("precompute-explicit-fmt-18e", ["~C10"], GEN,
   "    np.savetxt(output, distances, delimiter=delimiter)", "    np.savetxt(output, distances, delimiter=delimiter, fmt=\"%.18e\")")
+
+# ---------------------------------------------------------------------------
+# k-NN graph and density (C12)
+# ---------------------------------------------------------------------------
+M("arcs-revert-f7", ["C12"], KSUB, "        max_distances = np.zeros(k)\n\n        self.density = 0.0\n", "        max_distances = np.zeros(k)\n")
+M("arcs-radius-not-reset", ["C12"], KSUB, "            self.nodes[i].radius = 0.0\n            self.nodes[i].n_plateaus = 0\n", "            self.nodes[i].n_plateaus = 0\n")
+M("arcs-no-self-skip", ["C12"], KSUB,
+  "            for j in range(self.n_nodes):\n                if j != i:\n                    if pre_computed_distance:\n                        distances[k] = pre_distances",
+  "            for j in range(self.n_nodes):\n                if True:\n                    if pre_computed_distance:\n                        distances[k] = pre_distances")
+M("arcs-readout-skips-rank0", ["C12"], KSUB, "            for l in range(k - 1, -1, -1):", "            for l in range(k - 1, 0, -1):")
+M("arcs-append-on-descending", ["C12"], KSUB,
+  "                    self.nodes[i].adjacency.insert(0, neighbours_idx[l])", "                    self.nodes[i].adjacency.append(neighbours_idx[l])")
+M("arcs-radius-min", ["C12"], KSUB,
+  "                    if distances[l] > self.nodes[i].radius:", "                    if distances[l] < self.nodes[i].radius:")
+M("arcs-maxima-wrong-rank", ["C12"], KSUB,
+  "                    if distances[l] > max_distances[l]:\n                        max_distances[l] = distances[l]",
+  "                    if distances[l] > max_distances[l]:\n                        max_distances[0] = distances[l]")
+M("arcs-fallback-inside-loop", ["C12"], KSUB,
+  "        if self.density < 0.00001:\n            self.density = 1\n\n        return max_distances",
+  "            if self.density < 0.00001:\n                self.density = 1\n\n        return max_distances")
+M("arcs-index-from-distance-slot", ["C12"], KSUB,
+  "                    neighbours_idx[k] = j\n                    cur_k = k", "                    neighbours_idx[k - 1] = j\n                    cur_k = k")
+M("arcs-no-valid-guard", ["C12"], KSUB,
+  "            for l in range(k - 1, -1, -1):\n                if distances[l] != c.FLOAT_MAX:", "            for l in range(k - 1, -1, -1):\n                if True:")
+M("pdf-constant-changed", ["C12"], KSUB, "        self.constant = 2 * self.density / 9", "        self.constant = 2 * self.density / 3")
+M("pdf-divide-by-k", ["C12"], KSUB, "            n_pdf = 1\n", "            n_pdf = 0\n")
+M("pdf-cost-is-density", ["C12"], KSUB,
+  "                self.nodes[i].cost = self.nodes[i].density - 1", "                self.nodes[i].cost = self.nodes[i].density")
+M("pdf-minmax-before-division", ["C12"], KSUB,
+  "            pdf[i] /= n_pdf\n\n            if pdf[i] < self.min_density:\n                self.min_density = pdf[i]\n            if pdf[i] > self.max_density:\n                self.max_density = pdf[i]\n",
+  "            if pdf[i] < self.min_density:\n                self.min_density = pdf[i]\n            if pdf[i] > self.max_density:\n                self.max_density = pdf[i]\n\n            pdf[i] /= n_pdf\n")
+M("pdf-max-sentinel-zero", ["C12"], KSUB, "        self.max_density = -c.FLOAT_MAX", "        self.max_density = 0.0")
+M("pdf-neighbour-of-neighbour", ["C12", "C10"], KSUB,
+  "                    distance = distance_function(\n                        self.nodes[i].features, self.nodes[j].features\n                    )",
+  "                    distance = distance_function(\n                        self.nodes[j].features, self.nodes[j].features\n                    )")
+M("pdf-equal-case-cost", ["C12"], KSUB,
+  "                self.nodes[i].density = c.MAX_DENSITY\n                self.nodes[i].cost = c.MAX_DENSITY - 1",
+  "                self.nodes[i].density = c.MAX_DENSITY\n                self.nodes[i].cost = c.MAX_DENSITY")
+M("elim-guard-nonneg", ["C12"], KSUB, "        if height > 0:", "        if height >= -1:")
+M("elim-no-clamp", ["C12"], KSUB,
+  "                self.nodes[i].cost = np.maximum(self.nodes[i].density - height, 0)", "                self.nodes[i].cost = self.nodes[i].density - height")
+M("knn-learn-no-destroy", ["C12"], KNN, "            logger.info(\"Accuracy over k = %d: %s\", k, acc)\n\n            self.subgraph.destroy_arcs()\n",
+  "            logger.info(\"Accuracy over k = %d: %s\", k, acc)\n")
+M("arcs-ascending-append", ["~C12"], KSUB,
+  "            for l in range(k - 1, -1, -1):\n                if distances[l] != c.FLOAT_MAX:\n                    if distances[l] > self.density:\n                        self.density = distances[l]\n                    if distances[l] > self.nodes[i].radius:\n                        self.nodes[i].radius = distances[l]\n                    if distances[l] > max_distances[l]:\n                        max_distances[l] = distances[l]\n\n                    self.nodes[i].adjacency.insert(0, neighbours_idx[l])",
+  "            for l in range(k):\n                if distances[l] != c.FLOAT_MAX:\n                    if distances[l] > self.density:\n                        self.density = distances[l]\n                    if distances[l] > self.nodes[i].radius:\n                        self.nodes[i].radius = distances[l]\n                    if distances[l] > max_distances[l]:\n                        max_distances[l] = distances[l]\n\n                    self.nodes[i].adjacency.append(neighbours_idx[l])")
+M("pdf-constant-rewritten", ["~C12"], KSUB, "        self.constant = 2 * self.density / 9", "        self.constant = self.density * (2 / 9)")
